@@ -30,7 +30,8 @@ Hypotheses shared by the coverage theorems, and why they are there:
 | why the hypotheses: one prefix / a mid-slice kill | `single_prefix_stale_cache`, `kill_repeats_work` (counterexamples) |
 | "process kills at every point" incl. kills INSIDE the state write (after truncate / partial write / before / after the rename) | atomicity of `_LeaseStateSerializer.save` is a model parameter: `cycle_numbers_increment_atomic`, `state_file_tracks_memory_with_save_kills`, `save_kill_is_kill_or_restart` (tmp + rename: such a kill is a pre-save kill or a restart, so the coverage theorems apply); in-place variant refuted: `nonatomic_save_resets_cycle_numbers`; which variant the code is: observed by the harness |
 | the crawler orders each directory listing itself (listing = a set) | the model sorts (`sortNames`) inside `bucketsFor`; `sorted_listing_is_covered`; without the sort: `unsorted_listing_skips_buckets` (counterexample) |
-| timing (`allowed_cpu_percentage`, sleep times), subclass state in the state file | not covered |
+| subclass state in the state file | for the lease crawler: C26 `histogram_survives_state_file` + the `gcrun` / `hist` correspondence (mid-cycle restarts of a real LeaseCheckingCrawler); other subclass keys (space-recovered counters): correspondence only |
+| timing (`allowed_cpu_percentage`, sleep times) | not covered |
 -/
 namespace Tahoe.C27
 open Tahoe.Storage.Crawler
